@@ -1,10 +1,13 @@
 (* C04 - A swap settles exactly as requested within the user's limit, or changes nothing.
    Statements only; model in Models/SwapQueue.v, proofs in Proofs/SwapQueueProofs.v and Proofs/SwapBatchProofs.v.
 
-   [settle_gen true] is RouteExactAmountOut as it is in the tree (= [settle], Models/SwapQueue.v cur_out_coded);
-   [settle_gen false] = [settle_fixed] differs at one site: the output of an intermediate hop is paid to the SENDER
-   (as RouteExactAmountIn does) instead of the recipient. [msg_req_gen false] is SwapByDenom as it is in the tree
-   (= [msg_req], cur_bydenom_fwd), [msg_req_gen true] forwards Recipient on the exact-out branch as well.
+   [settle] = [settle_gen cur_out_coded] and [msg_req] = [msg_req_gen cur_bydenom_fwd] are the code AS IT IS in the tree: they are
+   what the correspondence run evaluates against the real application (Run/SwapQueueRun.v). Since fix: e1a97d2 / f444cb8
+   cur_out_coded = false and cur_bydenom_fwd = true.
+   [settle_gen true] is RouteExactAmountOut as it was BEFORE fix: e1a97d2 (the output of an intermediate hop paid to the
+   recipient); [settle_gen false] = [settle_fixed] pays it to the SENDER (as RouteExactAmountIn does).
+   [msg_req_gen false] is SwapByDenom as it was before fix: f444cb8 (Recipient dropped on the exact-out branch),
+   [msg_req_gen true] forwards it. The pre-fix variants survive only in the _partial / _refuted statements below.
    nonsys e (route_pools r) a : a is not the pool, rebalance-treasury or revenue address of a pool on the route.
    ind c x = if c then x else 0.  All choices (priced amounts, fees, bonus, failures) are universally quantified. *)
 From Coq Require Import ZArith List Bool Arith.
@@ -127,10 +130,23 @@ Theorem C04_exact_out_credit : forall coded e b r c b',
 Proof. exact exact_out_credit_and_third. Qed.
 Print Assumptions C04_exact_out_credit.
 
-(* Exact-out, code as it is: the sender loses at most TokenInMaxAmount of the stated input denom, nothing of any
-   other denom, and (when it is the recipient) gains at least TokenOut - PROVIDED the route has one hop or the
+(* Exact-out, THE CODE AS IT IS ([settle], the function the correspondence run evaluates), every route, every recipient:
+   the sender loses at most TokenInMaxAmount of the stated input denom, nothing of any other denom, and (when it is the
+   recipient) gains at least TokenOut. Full statement, no side condition. *)
+Theorem C04_exact_out_debit : forall e b r c b',
+  r_kind r = KOut -> settle e b r c = Ok b' -> nonsys e (route_pools r) (r_sender r) ->
+  out_sender_bound b b' r.
+Proof. exact exact_out_debit_fixed. Qed.
+Print Assumptions C04_exact_out_debit.
+
+(* SwapByDenom AS IT IS stores exactly the request the message states (Recipient included), on both branches. *)
+Theorem C04_by_denom_recipient : forall r, msg_req (MByDenom r) = r.
+Proof. exact by_denom_recipient_forwarded. Qed.
+Print Assumptions C04_by_denom_recipient.
+
+(* Exact-out, code as it was before fix: e1a97d2: the sender's bound holds only PROVIDED the route has one hop or the
    sender is the recipient.
-   Full statement (holds for [settle_fixed], refuted for [settle], see below):
+   Full statement (holds for [settle_fixed] = [settle], refuted for [settle_gen true], see below):
      forall e b r c b', r_kind r = KOut -> settle_gen true e b r c = Ok b' ->
        nonsys e (route_pools r) (r_sender r) -> out_sender_bound b b' r. *)
 Theorem C04_exact_out_debit_partial : forall e b r c b',
@@ -147,7 +163,7 @@ Theorem C04_exact_out_debit_fixed : forall e b r c b',
 Proof. exact exact_out_debit_fixed. Qed.
 Print Assumptions C04_exact_out_debit_fixed.
 
-(* Code as it is, two hops, recipient <> sender (numbers of the real application, harness corpus entry 0):
+(* Code as it was before fix: e1a97d2, two hops, recipient <> sender (numbers of the real application, harness corpus entry 0):
    the sender pays the first hop's input (within its maximum) AND the second hop's input in the intermediate denom
    from its own wallet; the recipient keeps the first hop's output as well as the final output. *)
 Theorem C04_exact_out_multihop_third_party_refuted :
@@ -162,7 +178,7 @@ Theorem C04_exact_out_multihop_third_party_refuted :
 Proof. exact exact_out_multihop_third_party_refuted. Qed.
 Print Assumptions C04_exact_out_multihop_third_party_refuted.
 
-(* MsgSwapByDenom resolves to an exact-out request whose recipient is the SENDER, whatever Recipient the message
+(* Before fix: f444cb8 MsgSwapByDenom resolved to an exact-out request whose recipient is the SENDER, whatever Recipient the message
    names (the exact-in branch forwards it). *)
 Theorem C04_by_denom_exact_out_recipient_refuted :
   exists r, r_kind r = KOut /\ r_rcpt r <> r_sender r /\ r_rcpt (msg_req_gen false (MByDenom r)) = r_sender r /\
